@@ -57,6 +57,8 @@ let parse_op toks = match toks with
   | ["starts"; v; u] -> OStartsWith (nat v, nat u)
   | ["ends"; v; u] -> OEndsWith (nat v, nat u)
   | ["len"; v] -> OLen (nat v)
+  | ["appo"; v; o; l] -> OAppendOwn (nat v, nat o, nat l)
+  | ["printfs"; v; a; b] -> OPrintfSelf (nat v, hx a, hx b)
   | _ -> failwith ("bad op: " ^ String.concat " " toks)
 
 (* a byte the model holds as indeterminate / out of range prints as the wildcard pair *)
